@@ -1,6 +1,6 @@
 #!/bin/sh
 # development aid: tools/quick_detect.sh <Cxx> <patch.diff> [tier]  -- run the check against a scratch worktree of /repo HEAD with the patch applied
-prop=$1; diff=$2; tier=${3:-quick}
+prop=$1; diff=$(readlink -f "$2"); tier=${3:-quick}
 wt=/tmp/ws/qd_$$
 mkdir -p /tmp/ws
 git -C /repo worktree add -q --detach $wt HEAD || exit 2
